@@ -24,6 +24,18 @@ def names_in(e: ast.AST) -> set[str]:
     return {x.id for x in ast.walk(e) if isinstance(x, ast.Name)}
 
 
+def sorted_after(fnode: ast.AST, var: str, line: int) -> int | None:
+    """Line of the first statement after `line` that puts `var` into sorted order: `var.sort(...)` or `var = sorted(var, ...)`."""
+    hits = []
+    for m in ast.walk(fnode):
+        if isinstance(m, ast.Call) and isinstance(m.func, ast.Attribute) and m.func.attr == "sort" and ast.unparse(m.func.value) == var and m.lineno > line:
+            hits.append(m.lineno)
+        if isinstance(m, ast.Assign) and len(m.targets) == 1 and ast.unparse(m.targets[0]) == var and isinstance(m.value, ast.Call) and getattr(m.value.func, "id", "") == "sorted" \
+                and m.value.args and ast.unparse(m.value.args[0]) == var and m.lineno > line:
+            hits.append(m.lineno)
+    return min(hits) if hits else None
+
+
 def loop_body_order_sensitivity(repo, fi: FuncInfo, loop: ast.For) -> list[str]:
     """Why the result of this loop can depend on the iteration order (empty = order-insensitive by construction)."""
     reasons = []
@@ -72,13 +84,13 @@ def loop_body_order_sensitivity(repo, fi: FuncInfo, loop: ast.For) -> list[str]:
         if isinstance(n, ast.Call) and isinstance(n.func, ast.Attribute) and n.func.attr in ("append", "extend", "insert") and any(names_in(a) & dep for a in n.args):
             lst = ast.unparse(n.func.value)
             # accepted when the list is sorted after the loop and before any other use
-            sorted_after = False
+            sorted_later = False
             for m in ast.walk(fi.node):
                 if isinstance(m, ast.Call) and isinstance(m.func, ast.Attribute) and m.func.attr == "sort" and ast.unparse(m.func.value) == lst and m.lineno > loop.end_lineno:
-                    sorted_after = True
+                    sorted_later = True
                 if isinstance(m, ast.Call) and getattr(m.func, "id", "") == "sorted" and m.args and ast.unparse(m.args[0]) == lst and m.lineno > loop.end_lineno:
-                    sorted_after = True
-            if not sorted_after:
+                    sorted_later = True
+            if not sorted_later:
                 reasons.append(f"line {n.lineno}: `{lst}.{n.func.attr}` collects in iteration order and is not sorted afterwards")
     return reasons
 
@@ -122,9 +134,9 @@ def check(ctx: Ctx, col: Collector, tier: str) -> None:
                         ok_ctx = f"consumed by {par.func.id}()"
                     if isinstance(par, ast.Assign) and len(par.targets) == 1 and isinstance(par.targets[0], ast.Name):
                         nm = par.targets[0].id
-                        nxt_sort = [m for m in ast.walk(fi.node) if isinstance(m, ast.Call) and isinstance(m.func, ast.Attribute) and m.func.attr == "sort" and ast.unparse(m.func.value) == nm and m.lineno > n.lineno]
+                        nxt_sort = sorted_after(fi.node, nm, n.lineno)
                         if nxt_sort:
-                            ok_ctx = f"assigned to {nm}, which is sorted at line {nxt_sort[0].lineno} before use"
+                            ok_ctx = f"assigned to {nm}, which is sorted at line {nxt_sort} before use"
                     key = f"{rel}::{fi.qualname}::comprehension over {ast.unparse(n.generators[0].iter)[:50]}"
                     if ok_ctx:
                         col.ok("C08.UNORDERED-ITER", key, repo.loc(rel, n), ok_ctx)
@@ -155,9 +167,9 @@ def check(ctx: Ctx, col: Collector, tier: str) -> None:
                         ok_ctx = "min/max of a set (order independent up to ties of equal elements)"
                     if kind in ("list", "tuple") and isinstance(par, ast.Assign) and isinstance(par.targets[0], ast.Name):
                         v = par.targets[0].id
-                        srt = [m for m in ast.walk(fi.node) if isinstance(m, ast.Call) and isinstance(m.func, ast.Attribute) and m.func.attr == "sort" and ast.unparse(m.func.value) == v and m.lineno > n.lineno]
+                        srt = sorted_after(fi.node, v, n.lineno)
                         if srt:
-                            ok_ctx = f"{v} is sorted at line {srt[0].lineno} before use"
+                            ok_ctx = f"{v} is sorted at line {srt} before use"
                     if kind in ("list", "tuple") and isinstance(par, ast.Return):
                         # the callers must sort: check every call site of this function
                         callers_ok, ncall = True, 0
@@ -168,8 +180,8 @@ def check(ctx: Ctx, col: Collector, tier: str) -> None:
                                         ncall += 1
                                         p2 = repo.parent(c)
                                         v = p2.targets[0].id if isinstance(p2, ast.Assign) and isinstance(p2.targets[0], ast.Name) else None
-                                        if v is None or not any(isinstance(m, ast.Call) and isinstance(m.func, ast.Attribute) and m.func.attr == "sort" and ast.unparse(m.func.value) == v and m.lineno > c.lineno
-                                                                 for m in ast.walk(f2.node)):
+                                        direct = isinstance(p2, ast.Call) and getattr(p2.func, "id", "") == "sorted"
+                                        if not direct and (v is None or sorted_after(f2.node, v, c.lineno) is None):
                                             callers_ok = False
                         if ncall and callers_ok:
                             ok_ctx = f"returned unsorted, but each of the {ncall} callers sorts the result before use"
@@ -290,7 +302,7 @@ def check(ctx: Ctx, col: Collector, tier: str) -> None:
             col.ok("C08.FS-ENUM", key, repo.loc(rel, n), "enumeration result is sorted before use")
         elif fi.qualname == "_get_nearest_init_dirs":
             col.ok("C08.FS-ENUM", key, repo.loc(rel, n), "result only feeds a minimum-depth selection whose outcome (the set of shallowest directories) is order independent; the caller uses it only when it has exactly one element")
-        elif fi.qualname == "get_api" and n.func.attr == "glob" and isinstance(par, ast.For):
+        elif fi.qualname == "get_api" and n.func.attr in ("glob", "rglob") and isinstance(par, ast.For):
             col.ok("C08.FS-ENUM", key, repo.loc(rel, n), "order reaches only insertion orders (mypy source list, api.modules): every serialised list is sorted by id (C08.SORTED-SERIALISE), module stubs are written "
                    "independently of each other, and first-match scans over api.classes are exact-id lookups first (C17.LOOKUP-EXACT); ASSUMPTION recorded: at most one class matches a fuzzy scan")
             col.assume("file enumeration order in get_api reaches the output only through first-match scans over api.classes; assumed: at most one class matches such a scan (not proved)")
